@@ -17,6 +17,7 @@ import time
 
 VERIF = os.path.dirname(os.path.dirname(os.path.dirname(os.path.abspath(__file__))))
 KNOWN = os.path.join(VERIF, 'known_findings.json')
+OUT = os.environ.get('VF_OUT') or VERIF      # evidence/ and replays/ root (redirected for mutation runs)
 
 
 def digest(obj) -> str:
@@ -111,7 +112,7 @@ class Collector:
         for key, hit, cnt in known_seen:
             out_lines.append(f"KNOWN-FINDING: property={self.pid} {hit['what']} [key={key} occurrences={cnt}]")
         n_viol = 0
-        rdir = os.path.join(VERIF, 'replays', self.pid)
+        rdir = os.path.join(OUT, 'replays', self.pid)
         for key, idx, payload, msg, cnt in violations[:25]:
             if confirm and task_fn is not None:
                 again = _confirm(self.module, task_fn, payload, key)
@@ -165,8 +166,8 @@ class Collector:
         cov.update(self.extra)
         ev = {'property_id': self.pid, 'tier': self.tier, 'seed': self.seed, 'level': self.level, 'coverage': cov,
               'assumptions': self.assumptions, 'wall_s': round(time.time() - self.t0, 2), 'violations': n_viol}
-        os.makedirs(os.path.join(VERIF, 'evidence'), exist_ok=True)
-        path = os.path.join(VERIF, 'evidence', f'{self.pid}.json')
+        os.makedirs(os.path.join(OUT, 'evidence'), exist_ok=True)
+        path = os.path.join(OUT, 'evidence', f'{self.pid}.json')
         with open(path, 'w') as f:
             json.dump(ev, f, indent=1, default=str)
         validate_evidence(path)
